@@ -197,10 +197,10 @@ func C16(ctx *Ctx) {
 		R.Fail("guard", "Append:shape", apos, "cannot identify n and code of the two emitters")
 		return
 	}
-	needKey, capKey := o.Add(an, en).Lin.Key(), acode.Len.Lin.Key()
+	cs := capSpec{o: o, need: o.Add(an, en), cap: acode.Len}
 	guarded := func(gl []absint.GuardInfo) bool {
 		for _, g := range gl {
-			if acc, is := capacityGuard(g, needKey, capKey); is && acc {
+			if acc, is := capacityGuard(g, cs); is && acc {
 				return true
 			}
 		}
@@ -243,7 +243,7 @@ func C16(ctx *Ctx) {
 			nPanic++
 			refusing := false
 			for _, g := range ip.GuardListOf(ev) {
-				if acc, is := capacityGuard(g, needKey, capKey); is && !acc {
+				if acc, is := capacityGuard(g, cs); is && !acc {
 					refusing = true
 				}
 			}
